@@ -76,6 +76,7 @@ func main() {
 
 		if err != nil {
 			fmt.Println(err)
+			return
 		}
 
 		if len(t) > 0 {
